@@ -34,21 +34,27 @@ theorem handleAvailableCommands_shape :
 /-! ### requirement filtering -/
 
 /-- Every proxy command node the player receives — at any depth, and also through redirects — is one whose
-    requirement the player passes (id 0 is the fresh root copy). -/
+    requirement returned true for the player: it neither returned false nor panicked (id 0 is the fresh root copy).
+    Since every ancestor of a delivered copy is itself delivered, all requirements on its path returned true. -/
 theorem filtered_usable (t : PTree) (perms : List Nat) (fuel n : Nat) (ts : List Tok)
-    (h : filter t perms fuel n = some ts) :
-    ∀ id ∈ received ts, id = 0 ∨ ∃ nd, t[id - 1]? = some nd ∧ usable perms nd = true :=
+    (h : filter t perms fuel n = .ok ts) :
+    ∀ id ∈ received ts, id = 0 ∨ ∃ nd, t[id - 1]? = some nd ∧ reqOut perms nd = .allow :=
   filter_usable t perms fuel n ts h
 
-/-- A node whose requirement the player does not pass is dropped with its whole subtree (filterNode returns nil). -/
+/-- A node whose requirement returns false is dropped with its whole subtree (filterNode returns nil). -/
 theorem unusable_dropped (t : PTree) (perms : List Nat) (fuel n : Nat) (nd : PNode) (hn : n ≠ 0)
-    (hnd : t[n - 1]? = some nd) (hu : usable perms nd = false) : filter t perms (fuel + 1) n = some [] :=
-  filter_unusable t perms fuel n nd hn hnd hu
+    (hnd : t[n - 1]? = some nd) (hu : reqOut perms nd = .deny) : filter t perms (fuel + 1) n = .ok [] :=
+  filter_denied t perms fuel n nd hn hnd hu
+
+/-- A node whose requirement panics is never copied: the call does not return a tree at all. -/
+theorem panicking_requirement_delivers_nothing (t : PTree) (perms : List Nat) (fuel n : Nat) (nd : PNode) (hn : n ≠ 0)
+    (hnd : t[n - 1]? = some nd) (hu : reqOut perms nd = .panic) : filter t perms (fuel + 1) n = .panicked :=
+  filter_panics t perms fuel n nd hn hnd hu
 
 /-- The proxy nodes injected into the backend's root are exactly the usable children of the proxy's root. -/
 theorem injected_are_usable_root_children (t : PTree) (perms : List Nat) (p : String × Nat)
     (hp : p ∈ proxyRootChildren t perms) :
-    p.2 ∈ childIds t 0 ∧ ∃ nd, t[p.2 - 1]? = some nd ∧ usable perms nd = true ∧ nd.name = p.1 := by
+    p.2 ∈ childIds t 0 ∧ ∃ nd, t[p.2 - 1]? = some nd ∧ reqOut perms nd = .allow ∧ nd.name = p.1 := by
   simp only [proxyRootChildren, List.mem_filterMap] at hp
   obtain ⟨id, hid, hm⟩ := hp
   split at hm
@@ -56,16 +62,16 @@ theorem injected_are_usable_root_children (t : PTree) (perms : List Nat) (p : St
     split at hm
     · rename_i hu
       cases hm
-      exact ⟨hid, nd, hnd, hu, rfl⟩
+      exact ⟨hid, nd, hnd, by simpa [usable] using hu, rfl⟩
     · cases hm
   · cases hm
 
-/-- filterNode terminates whenever children and redirect targets can be ranked below their node
+/-- filterNode terminates (returns or panics) whenever children and redirect targets can be ranked below their node
     (the child + redirect graph is acyclic). -/
 theorem terminates_if_acyclic (t : PTree) (perms : List Nat) (rank : Nat → Nat)
     (hchild : ∀ n, ∀ c ∈ childIds t n, rank c < rank n)
     (hred : ∀ n nd tgt, t[n - 1]? = some nd → n ≠ 0 → nd.redirect = some tgt → rank tgt < rank n) (n : Nat) :
-    (filter t perms (rank n + 1) n).isSome = true :=
+    filter t perms (rank n + 1) n ≠ .diverges :=
   filter_terminates t perms rank hchild hred (rank n + 1) n (Nat.lt_succ_self _)
 
 /-! ### merge with the backend's tree -/
@@ -145,12 +151,12 @@ theorem proxyRootChildren_names_nodup (t : PTree) (perms : List Nat)
 /-! ### redirect cycles (known finding redirect-cycle-diverges) -/
 
 /-- brigadier's `execute … run` shape: `/execute` has a child that redirects to the root -/
-def cyclicTree : PTree := [⟨0, "execute", none, none⟩, ⟨1, "run", none, some 0⟩]
+def cyclicTree : PTree := [⟨0, "execute", .free, none⟩, ⟨1, "run", .free, some 0⟩]
 
 /-- filterNode does not terminate on it, whatever the amount of fuel (in Go: stack overflow) -/
 theorem redirect_to_ancestor_diverges_fails (perms : List Nat) :
-    ∀ fuel, filter cyclicTree perms fuel 0 = none ∧ filter cyclicTree perms fuel 1 = none ∧
-      filter cyclicTree perms fuel 2 = none := by
+    ∀ fuel, filter cyclicTree perms fuel 0 = .diverges ∧ filter cyclicTree perms fuel 1 = .diverges ∧
+      filter cyclicTree perms fuel 2 = .diverges := by
   intro fuel
   induction fuel with
   | zero => simp [filter]
@@ -159,19 +165,23 @@ theorem redirect_to_ancestor_diverges_fails (perms : List Nat) :
     have c0 : childIds cyclicTree 0 = [1] := by decide
     have c1 : childIds cyclicTree 1 = [2] := by decide
     have c2 : childIds cyclicTree 2 = [] := by decide
-    have g1 : cyclicTree[0]? = some ⟨0, "execute", none, none⟩ := rfl
-    have g2 : cyclicTree[1]? = some ⟨1, "run", none, some 0⟩ := rfl
+    have g1 : cyclicTree[0]? = some ⟨0, "execute", .free, none⟩ := rfl
+    have g2 : cyclicTree[1]? = some ⟨1, "run", .free, some 0⟩ := rfl
     refine ⟨?_, ?_, ?_⟩
-    · simp [filter, c0, h1, catOpt]
-    · simp [filter, c1, h2, catOpt, g1, usable]
-    · simp [filter, c2, h0, catOpt, g2, usable]
+    · simp [filter, c0, h1, catRes]
+    · simp [filter, c1, h2, catRes, g1, reqOut]
+    · simp [filter, c2, h0, catRes, g2, reqOut]
 
 /-! ### non-vacuity -/
 
 /-- a tree with nesting, a requirement and a redirect; the rank hypotheses of `terminates_if_acyclic` hold with
     rank(root)=3, rank(server)=1, rank(n2)=0, rank(hub)=2 -/
-example : filter [⟨0, "server", none, none⟩, ⟨1, "n2", some 1, none⟩, ⟨0, "hub", none, some 1⟩] [] 5 0
-    = some [.node 0, .node 1, .up, .node 3, .redirect, .node 1, .up, .up, .up] := by decide
+example : filter [⟨0, "server", .free, none⟩, ⟨1, "n2", .perm 1, none⟩, ⟨0, "hub", .free, some 1⟩] [] 5 0
+    = .ok [.node 0, .node 1, .up, .node 3, .redirect, .node 1, .up, .up, .up] := by decide
+
+/-- a requirement that panics below a usable node: nothing is delivered; behind a denied node it is never evaluated -/
+example : filter [⟨0, "server", .free, none⟩, ⟨1, "n2", .panics, none⟩] [] 5 0 = .panicked := by decide
+example : filter [⟨0, "server", .perm 1, none⟩, ⟨1, "n2", .panics, none⟩] [] 5 0 = .ok [.node 0, .up] := by decide
 
 example : merge [⟨"server", 1⟩, ⟨"give", 2⟩] [("server", 1), ("hub", 3)]
     = [.backend ⟨"give", 2⟩, .proxy "server" 1, .proxy "hub" 3] := by decide
